@@ -71,3 +71,116 @@ case("c14-keep-early-return", "keep", ["C14"], [(CORE + "common.rs", """pub fn i
     }
     is_in_table(cp, &VOWEL_JAMO)
 }""")], "same disjunction, different shape and order")
+
+# ------------------------------------------------------------------ C04-C08 (profiles)
+U = PROF + "usernames.rs"
+MAPPED_ENFORCE = """        let s = self.prepare(s)?;
+        let s = self.case_mapping_rule(s)?;
+        let s = self.normalization_rule(s)?;
+        let s = (!s.is_empty()).then_some(s).ok_or(Error::Invalid)?;
+        self.directionality_rule(s)"""
+PRESERVED_ENFORCE = """        let s = self.prepare(s)?;
+        let s = self.normalization_rule(s)?;
+        let s = (!s.is_empty()).then_some(s).ok_or(Error::Invalid)?;
+        self.directionality_rule(s)"""
+case("c04-nfc-before-case", "break", ["C04", "C08"], [(U, MAPPED_ENFORCE, MAPPED_ENFORCE.replace("        let s = self.case_mapping_rule(s)?;\n        let s = self.normalization_rule(s)?;", "        let s = self.normalization_rule(s)?;\n        let s = self.case_mapping_rule(s)?;"))])
+case("c04-drop-second-empty", "break", ["C04"], [(U, MAPPED_ENFORCE, MAPPED_ENFORCE.replace("        let s = (!s.is_empty()).then_some(s).ok_or(Error::Invalid)?;\n", ""))])
+case("c04-drop-dir", "break", ["C04"], [(U, MAPPED_ENFORCE, MAPPED_ENFORCE.replace("self.directionality_rule(s)", "Ok(s)"))])
+case("c04-validate-after-case", "break", ["C04"], [(U, MAPPED_ENFORCE, """        let s = self.width_mapping_rule(s)?;
+        let s = self.case_mapping_rule(s)?;
+        let s = (!s.is_empty()).then_some(s).ok_or(Error::Invalid)?;
+        self.0.allows(&s)?;
+        let s = self.normalization_rule(s)?;
+        let s = (!s.is_empty()).then_some(s).ok_or(Error::Invalid)?;
+        self.directionality_rule(s)""")], "case mapping moved before validation")
+case("c04-nfkc-for-nfc", "break", ["C04"], [(U, """        common::normalization_form_nfc(s)
+    }
+
+    fn directionality_rule<'a, T>(&self, s: T) -> Result<Cow<'a, str>, Error>
+    where
+        T: Into<Cow<'a, str>>,
+    {
+        directionality_rule(s)
+    }
+}
+
+fn get_username_case_mapped_profile""", """        common::normalization_form_nfkc(s)
+    }
+
+    fn directionality_rule<'a, T>(&self, s: T) -> Result<Cow<'a, str>, Error>
+    where
+        T: Into<Cow<'a, str>>,
+    {
+        directionality_rule(s)
+    }
+}
+
+fn get_username_case_mapped_profile""")])
+case("c04-is-nfkc-guards-nfc", "break", ["C04", "C05"], [(PROF + "common.rs", "if unicode_normalization::is_nfc(&s) {", "if unicode_normalization::is_nfkc(&s) {")], "quick check of a different form guards the NFC normaliser (is_nfkc ⇒ is_nfc, so only slower — still flagged as non-sibling)")
+case("c04-preserved-maps-case", "break", ["C04"], [(U, PRESERVED_ENFORCE, PRESERVED_ENFORCE.replace("        let s = self.normalization_rule(s)?;", "        let s = common::case_mapping_rule(s)?;\n        let s = self.normalization_rule(s)?;"))])
+case("c04-width-after-validate", "break", ["C04", "C08"], [(U, MAPPED_ENFORCE, MAPPED_ENFORCE.replace("        let s = self.case_mapping_rule(s)?;", "        let s = self.width_mapping_rule(s)?;\n        let s = self.case_mapping_rule(s)?;"))], "a second width mapping after validation")
+case("c04-keep-helper", "keep", ["C04", "C07", "C08"], [(U, "fn directionality_rule<'a, T>(s: T) -> Result<Cow<'a, str>, Error>\nwhere", "fn non_empty<'a>(s: Cow<'a, str>) -> Result<Cow<'a, str>, Error> {\n    if s.is_empty() {\n        return Err(Error::Invalid);\n    }\n    Ok(s)\n}\n\nfn directionality_rule<'a, T>(s: T) -> Result<Cow<'a, str>, Error>\nwhere"), (U, MAPPED_ENFORCE, MAPPED_ENFORCE.replace("        let s = (!s.is_empty()).then_some(s).ok_or(Error::Invalid)?;", "        let s = non_empty(s)?;"))], "non-empty check extracted into a helper with if/return")
+case("c04-keep-match", "keep", ["C04", "C08"], [(U, PRESERVED_ENFORCE, """        let s = match self.prepare(s) {
+            Ok(s) => s,
+            Err(e) => return Err(e),
+        };
+        let s = self.normalization_rule(s)?;
+        if s.is_empty() {
+            return Err(Error::Invalid);
+        }
+        self.directionality_rule(s)""")], "? replaced by match / if")
+
+PW = PROF + "passwords.rs"
+OPAQUE_ENFORCE = """        let s = self.prepare(s)?;
+        let s = self.additional_mapping_rule(s)?;
+        let s = self.normalization_rule(s)?;
+        (!s.is_empty()).then_some(s).ok_or(Error::Invalid)"""
+case("c05-case-mapped", "break", ["C05"], [(PW, OPAQUE_ENFORCE, OPAQUE_ENFORCE.replace("        let s = self.normalization_rule(s)?;", "        let s = common::case_mapping_rule(s)?;\n        let s = self.normalization_rule(s)?;"))])
+case("c05-map-before-validate", "break", ["C05"], [(PW, OPAQUE_ENFORCE, """        let s = self.additional_mapping_rule(s)?;
+        let s = self.prepare(s)?;
+        let s = self.normalization_rule(s)?;
+        (!s.is_empty()).then_some(s).ok_or(Error::Invalid)""")])
+case("c05-nfkc", "break", ["C05"], [(PW, "common::normalization_form_nfc(s)", "common::normalization_form_nfkc(s)")])
+case("c05-no-final-empty", "break", ["C05"], [(PW, OPAQUE_ENFORCE, OPAQUE_ENFORCE.replace("        (!s.is_empty()).then_some(s).ok_or(Error::Invalid)", "        Ok(s)"))])
+case("c05-prepare-skips-empty", "break", ["C05"], [(PW, """        let s = s.into();
+        let s = (!s.is_empty()).then_some(s).ok_or(Error::Invalid)?;
+        self.0.allows(&s)?;
+        Ok(s)
+    }
+
+    fn enforce""", """        let s = s.into();
+        self.0.allows(&s)?;
+        Ok(s)
+    }
+
+    fn enforce""")])
+case("c08-no-validation", "break", ["C08", "C05"], [(PW, OPAQUE_ENFORCE, """        let s = s.into();
+        let s = (!s.is_empty()).then_some(s).ok_or(Error::Invalid)?;
+        let s = self.additional_mapping_rule(s)?;
+        let s = self.normalization_rule(s)?;
+        (!s.is_empty()).then_some(s).ok_or(Error::Invalid)""")], "enforce no longer validates")
+
+NK = PROF + "nicknames.rs"
+case("c06-no-stabilize", "break", ["C06", "C08"], [(NK, "        stabilize(s, |s| self.apply_enforce_rules(s))", "        self.apply_enforce_rules(s)")])
+case("c06-stabilize-only-mapping", "break", ["C06", "C08"], [(NK, "        stabilize(s, |s| self.apply_enforce_rules(s))", "        let s = self.apply_prepare_rules(s)?;\n        stabilize(s, |s| {\n            let s = self.additional_mapping_rule(s)?;\n            self.normalization_rule(s)\n        })")], "validation not repeated inside the loop")
+case("c06-case-in-enforce", "break", ["C06"], [(NK, """        let s = self.additional_mapping_rule(s)?;
+        let s = self.normalization_rule(s)?;
+        (!s.is_empty()).then_some(s).ok_or(Error::Invalid)""", """        let s = self.additional_mapping_rule(s)?;
+        let s = self.case_mapping_rule(s)?;
+        let s = self.normalization_rule(s)?;
+        (!s.is_empty()).then_some(s).ok_or(Error::Invalid)""")])
+case("c06-nfc", "break", ["C06"], [(NK, "common::normalization_form_nfkc(s)", "common::normalization_form_nfc(s)")])
+case("c06-keep-closure-fn", "keep", ["C06", "C07", "C08"], [(NK, "        stabilize(s, |s| self.apply_enforce_rules(s))", "        stabilize(s, move |x| {\n            let r = self.apply_enforce_rules(x);\n            r\n        })")], "move closure with a block body")
+
+case("c07-eq-ignore-case", "break", ["C07"], [(PW, "Ok(self.enforce(s1.as_ref())? == self.enforce(s2.as_ref())?)", "Ok(self.enforce(s1.as_ref())?.eq_ignore_ascii_case(&self.enforce(s2.as_ref())?))")])
+case("c07-compare-prepare", "break", ["C07"], [(PW, "Ok(self.enforce(s1.as_ref())? == self.enforce(s2.as_ref())?)", "Ok(self.prepare(s1.as_ref())? == self.prepare(s2.as_ref())?)")])
+case("c07-second-first", "break", ["C07"], [(PW, "Ok(self.enforce(s1.as_ref())? == self.enforce(s2.as_ref())?)", "let b = self.enforce(s2.as_ref())?;\n        let a = self.enforce(s1.as_ref())?;\n        Ok(a == b)")], "second string evaluated first: its error wins")
+case("c07-error-to-false", "break", ["C07"], [(PW, "Ok(self.enforce(s1.as_ref())? == self.enforce(s2.as_ref())?)", "let a = self.enforce(s1.as_ref())?;\n        let b = match self.enforce(s2.as_ref()) {\n            Ok(b) => b,\n            Err(_) => return Ok(false),\n        };\n        Ok(a == b)")])
+case("c07-compare-inputs", "break", ["C07"], [(PW, "Ok(self.enforce(s1.as_ref())? == self.enforce(s2.as_ref())?)", "let _a = self.enforce(s1.as_ref())?;\n        let _b = self.enforce(s2.as_ref())?;\n        Ok(s1.as_ref() == s2.as_ref())")])
+case("c07-fast-swap", "break", ["C07"], [(NK, "get_nickname_profile().compare(s1, s2)", "get_nickname_profile().compare(s2, s1)")], "only the error precedence changes")
+case("c07-nick-no-case", "break", ["C07"], [(NK, """        let s = self.additional_mapping_rule(s)?;
+        let s = self.case_mapping_rule(s)?;
+        self.normalization_rule(s)""", """        let s = self.additional_mapping_rule(s)?;
+        self.normalization_rule(s)""")])
+case("c07-nick-second-uses-enforce-rules", "break", ["C07"], [(NK, "== stabilize(s2.as_ref(), |s| self.apply_compare_rules(s))?)", "== stabilize(s2.as_ref(), |s| self.apply_enforce_rules(s))?)")], "operands go through different rule sets")
+case("c07-keep-let", "keep", ["C07"], [(PW, "Ok(self.enforce(s1.as_ref())? == self.enforce(s2.as_ref())?)", "let a = self.enforce(s1.as_ref())?;\n        let b = self.enforce(s2.as_ref())?;\n        Ok(a == b)")])
